@@ -51,6 +51,15 @@ CHECKS = {
             "repetitions x omp/workqueue layers x concurrent Python callers must give bit-identical arrays equal to the exact result.",
             "Operations and schedules are sampled (degree <= 5 quick / <= 8 thorough). The harness controls thread count, chunking, layer and repetition, not instruction interleavings: no discrepancy over N runs is evidence of race freedom, not proof.",
             "DESIGN.md §4 C06"),
+    "C10": ("exploration",
+            "property-based testing (Hypothesis) against reference flows of the unwrapped field at signed times; reject-or-correct oracle on generated descending / non-uniform / zero-span grids",
+            "Generated (CR3BP kernel and System.propagate, 42-D variational with selective flip, polynomial Hamiltonian, autonomous and time-dependent user rhs) x method "
+            "(fixed 4/6/8, adaptive 5/8, symplectic 2..8) x span x steps x direction through _propagate_dynsys: time stamps start at 0, are non-positive and decreasing for "
+            "forward=-1 and lie on the requested grid; the state at returned time -t equals the SciPy 1e-13 reference flow of the unwrapped field at -t; forward-then-backward "
+            "round trip; first sample bit-equal to y0. Low level: Integrator.integrate on ascending, strictly descending, non-uniform, two-node and zero-span grids with and "
+            "without an inactive event: either raises or every sample matches the reference at the requested times; times returned exactly; interpolation on descending solutions.",
+            "Accuracy budgets come from the run's own self-convergence (|X_N-X_2N|) so only direction/grid semantics are judged; selective flipping asserts only the flipped autonomous block; sampling, not proof.",
+            "DESIGN.md §4 C10"),
     "C11": ("exploration",
             "property-based testing (Hypothesis) over exact-flow linear/Hamiltonian systems with y-augmented njit templates; certified root scan of the exact event function as oracle; Hamiltonian/generic twin differential",
             "Generated planar linear systems (rotation, spiral, ellipse, saddle, uniform motion) and quadratic Hamiltonians with exact flows; plane / moving-plane / circle "
@@ -68,6 +77,23 @@ CHECKS = {
             "on an independent CR3BP field.",
             "Outcome strings and grid enumerated exhaustively; longer scripts, float steps and end-to-end families are sampled. Model assumes no step growth after an accept; members exactly on the boundary count as inside.",
             "DESIGN.md §4 C13"),
+    "C15": ("exploration",
+            "Hypothesis grammar-generated section-value sequences on an exact dyadic realisation vs. an event-matching reference detector; analytic refinement ladders (bounds + observed order); engine/backend differential",
+            "Sample level: generated g-sequences (strict signs, exact zeros, |g|<tol, touch-and-return, repeated zeros, crossing on a sample, first/last segment) realised "
+            "exactly as 6-D states on a dyadic lattice, uniform/non-uniform times, axis/oblique/scaled normals, directions, linear/cubic, segment_refine 0..k, dedup tolerances, "
+            "max_hits; a reference detector written from the statement and the documented on-surface/dedup rules accepts every order-preserving explanation: one hit per "
+            "admissible sign change, nothing unexplained, time order, bracketing, on-plane (linear). Analytic ladders (ellipse, cubic, Lissajous) at h..h/8 check the linear-"
+            "interpolation error bound and observed order (>=1.7 linear, >=2.5 cubic uniform). Engine returns exactly the backend hits for n_workers 1..8.",
+            "Exactly-once asserted only where statement+docs pin the answer (cubic+refine only where the interpolant is provably monotone); CR3BP arcs and SynodicMap.compute not used (JIT-heavy); atheris target not built (not installed in /venv).",
+            "DESIGN.md §4 C15"),
+    "C16": ("exploration",
+            "property-based exploration of generated 3-DOF polynomial Hamiltonians through the real numba step kernels: FD-Richardson Jacobians for D^T J D = J, there-and-back identity, step-halving order vs SciPy 1e-13 reference with omega fixed, long-run energy envelopes with RK4 positive control",
+            "For generated polynomial Hamiltonians (degree <= 6, 50% non-separable), orders 2/4/6/8, step sizes and coupling constants: one step of the extended map on R^12 and "
+            "each sub-flow phi_a/phi_b/phi_c are symplectic for dQ^dP + dX^dY (Richardson finite-difference Jacobians), step(-h) after step(h) restores the state to a few eps, "
+            "integrate equals manual extended stepping on ascending/descending grids, observed order from step halving with omega fixed, and energy-error envelopes do not drift "
+            "(RK4 positive control must drift).",
+            "Symplecticity at sampled points; order in the regime (omega+Lambda)h <= 0.5; energy only for omega >= largest linear frequency over <= 1e5 steps (weak coupling drifts legitimately in Tao's method). One open known finding (orders 4/6/8 converge at rate 2).",
+            "DESIGN.md §4 C16"),
     "C17": ("exploration",
             "differential testing of program variants (Hamiltonian fast path vs generic twin generated from an independent symbolic gradient) on Hypothesis-generated polynomial Hamiltonians",
             "For generated 3-DOF polynomial Hamiltonians (50% non-separable): hamsys.rhs / dH_dQ / dH_dP / _hamiltonian_rhs equal an independently differentiated field; "
@@ -76,6 +102,14 @@ CHECKS = {
             "and event results must agree to rounding amplification; also through _propagate_dynsys(hamsys, fixed|adaptive, forward=+-1).",
             "Few Hamiltonians per run (each costs several JIT compilations), many runs per Hamiltonian; adaptive paths may legitimately differ at tolerance level when a rounding-level difference flips a controller decision: such 'soft' mismatches are reported only when frequent (>20% of a variant's cases).",
             "DESIGN.md §4 C17"),
+    "C18": ("exploration",
+            "registry walk (all edges enumerated at run time) x generated (mu, point, degree, pipeline / generated polynomial) with round-trip, polynomial-vs-coordinate and point-map inverse oracles; own NumPy evaluator over the packed layout",
+            "Every edge of the conversion registry (13, enumerated at run time) is executed in every run on pipeline Hamiltonians and on generated polynomials (Lie edges get "
+            "the quadratic part they expect): result type/name/degree; every two-way pair round-trips from both sides within a conditioning-derived tolerance; for each "
+            "linear/complexifying change P_new(f(x)) == P_old(x) with f the coordinate function of the same name; point maps synodic<->local<->modal<->complex compose to the "
+            "identity for L1..L5; _M @ _M_inv == I and symplectic for all pair subsets; pipeline forms independent of request order and cache clearing.",
+            "(mu, degree, polynomial, vector) are sampled; Lie edges are only required to run (their content is C08); order independence up to sqrt(eps) because thread-private partial sums are not bitwise reproducible.",
+            "DESIGN.md §4 C18"),
     "C19": ("exploration",
             "property-based testing (Hypothesis) with brute-force and exact-rational geometric oracle",
             "Generated cloud pairs / thresholds / segment pairs (lattice ties, parallel, collinear, zero-length, near-parallel) through "
